@@ -4,6 +4,7 @@ package main
 // accounting), C10 (bound, eviction for cause), C19 (timeouts, Close).
 
 import (
+	"math"
 	"encoding/json"
 	"fmt"
 	"math/rand"
@@ -219,8 +220,14 @@ func genReasmCase(rng *rand.Rand, prop string, maxOps int) RCase {
 		c.TimeoutNs = int64(time.Hour)
 	case rng.Intn(5) == 0:
 		c.TimeoutNs = -int64(time.Hour)
+	case rng.Intn(6) == 0:
+		// "never": the largest Duration, and values whose sum with the current Unix time in ns overflows int64
+		c.TimeoutNs = []int64{math.MaxInt64, math.MaxInt64 - 1, 250 * 365 * 24 * int64(time.Hour), math.MaxInt64 / 2}[rng.Intn(4)]
 	default:
 		c.TimeoutNs = int64(time.Hour)
+	}
+	if prop == "C10" && rng.Intn(6) == 0 {
+		c.TimeoutNs = []int64{math.MaxInt64, 250 * 365 * 24 * int64(time.Hour)}[rng.Intn(2)]
 	}
 	n := 1 + rng.Intn(maxOps)
 	const W = 1 << 24
@@ -563,7 +570,8 @@ func reasmMonitor(c RCase, obs []opObs, prop string) (clause string) {
 			// C10 / C19: cause of eviction
 			if op.K != "close" && !c.Real && c.TimeoutNs >= int64(time.Hour) {
 				if !(e.complete || len(open) > c.Max) {
-					note(fmt.Sprintf("C10: event %d evicted without cause (incomplete, %d buffered <= max %d, timeout 1h)", gs, len(open), c.Max))
+					note(fmt.Sprintf("C10: event %d evicted without cause (incomplete, %d buffered <= max %d, timeout %s not elapsed)", gs, len(open), c.Max, time.Duration(c.TimeoutNs)))
+					note(fmt.Sprintf("C19: event %d was delivered on account of time before its timeout (%s) elapsed (incomplete, %d buffered <= max %d)", gs, time.Duration(c.TimeoutNs), len(open), c.Max))
 				}
 			}
 			if op.K != "close" && c.Real && !e.complete && len(open) <= c.Max {
